@@ -29,6 +29,7 @@ sys.path.insert(0, os.path.dirname(os.path.abspath(__file__)))
 import rustscan as R
 
 REPO = os.environ.get('WAC_REPO', '/repo')
+UNITS_DIR = os.path.join(os.path.dirname(os.path.dirname(os.path.abspath(__file__))), 'units')
 
 
 class LostAnchor(Exception):
@@ -76,6 +77,7 @@ class SourceFile:
 
 DROP_ATTR = re.compile(r'#\s*\[\s*(error|label|source|diagnostic|help|serde|clap|logos|token|regex|related|doc|inline|must_use|allow|from|cfg_attr)\b')
 KEEP_DERIVES = {'Debug', 'Clone', 'Copy', 'PartialEq', 'Eq', 'Hash', 'PartialOrd', 'Ord', 'Default'}
+MODPATH = re.compile(r'(super::|crate::)+')
 LOG_STMT = re.compile(r'\blog::(debug|trace|info|warn|error)\s*!')
 
 
@@ -84,7 +86,7 @@ def blank(text):
     return ''.join(c if c == '\n' else ' ' for c in text)
 
 
-def filter_attrs(sf, lo, hi, drops):
+def filter_attrs(sf, lo, hi, drops, strip=()):
     """return text of sf.src[lo:hi] with proc-macro attributes blanked (anywhere inside the
     item: on the item, on fields, on variants) and derive lists filtered."""
     src, mask = sf.src, sf.mask
@@ -104,7 +106,9 @@ def filter_attrs(sf, lo, hi, drops):
                 m = re.match(r'#\s*\[\s*derive\s*\((.*)\)\s*\]$', text, re.S)
                 if m:
                     names = [x.strip() for x in m.group(1).split(',') if x.strip()]
-                    keep = [x for x in names if x.split('::')[-1] in KEEP_DERIVES]
+                    has_copy = any(x.split('::')[-1] == 'Copy' for x in names)
+                    keep = [x for x in names if x.split('::')[-1] in KEEP_DERIVES
+                            and (x.split('::')[-1] not in strip or (has_copy and x.split('::')[-1] == 'Clone'))]
                     if len(keep) != len(names):
                         drops['D4 derive filtered'] = drops.get('D4 derive filtered', 0) + 1
                     new = '#[derive(%s)]' % ', '.join(keep) if keep else ''
@@ -114,6 +118,13 @@ def filter_attrs(sf, lo, hi, drops):
                     continue
                 out.append(text)
                 i = e
+                continue
+        if mask[i] and (i == 0 or not (src[i - 1].isalnum() or src[i - 1] == '_')):
+            m = MODPATH.match(src, i)
+            if m:
+                drops['D8 module path prefix flattened'] = drops.get('D8 module path prefix flattened', 0) + 1
+                out.append(' ' * (m.end() - i))
+                i = m.end()
                 continue
         if not mask[i] and src.startswith('///', i):
             e = src.find('\n', i)
@@ -141,6 +152,14 @@ def apply_drops(sf, lo, hi, drops):
             e = q + 1
         edits[m.start()] = (e, blank(src[m.start():e]))
         drops['D2 log statement removed'] = drops.get('D2 log statement removed', 0) + 1
+    for m in MODPATH.finditer(src, lo, hi):
+        i = m.start()
+        if not mask[i] or (i > 0 and (src[i - 1].isalnum() or src[i - 1] == '_')):
+            continue
+        if any(a <= i < b for a, (b, _) in edits.items()):
+            continue
+        edits[i] = (m.end(), ' ' * (m.end() - i))
+        drops['D8 module path prefix flattened'] = drops.get('D8 module path prefix flattened', 0) + 1
     return edits
 
 
@@ -277,6 +296,16 @@ def parse_unit(path):
             if cmd == 'take':
                 opts = words[3:]
                 nodes.append(('take', words[1], words[2], opts, ln_no))
+            elif cmd == 'take_types':
+                # //@ take_types <file> [except=A,B,C]: every top-level struct/enum/type alias of the file, verbatim
+                exc = set()
+                topts = []
+                for w in words[2:]:
+                    if w.startswith('except='):
+                        exc = set(w[7:].split(','))
+                    else:
+                        topts.append(w)
+                nodes.append(('take_types', words[1], exc, ln_no, topts))
             elif cmd == 'fn':
                 cur_fn = FnDirective(words[1], words[2], words[3:], ln_no)
                 section = None
@@ -319,8 +348,11 @@ def parse_unit(path):
                 cur_fn.inserts.append((where, lit, '', ln_no))
                 section = ('insert', len(cur_fn.inserts) - 1)
             elif cmd == 'include':
-                inc = os.path.join(os.path.dirname(os.path.dirname(path)), words[1])
-                nodes.append(('raw_fixed', open(inc, encoding='utf-8').read(), ln_no))
+                inc = os.path.join(UNITS_DIR, words[1])
+                for nd in parse_unit(inc):
+                    if nd[0] == 'raw':
+                        nd = ('raw_fixed', nd[1], ln_no)
+                    nodes.append(nd)
             elif cmd == 'expect':
                 nodes.append(('expect', words[1], d.split(None, 2)[2], ln_no))
             elif cmd in ('unit', 'note'):
@@ -351,7 +383,11 @@ def emit_take(em, sf, item, opts, drops, unit_line):
     if item.kind == 'fn':
         text = render_fn(sf, item, None, drops, em, canary=False, take_opts=opts)
     else:
-        text = filter_attrs(sf, item.start, item.end, drops)
+        strip = ()
+        for o in opts:
+            if o.startswith('strip='):
+                strip = tuple(o[6:].split(','))
+        text = filter_attrs(sf, item.start, item.end, drops, strip)
         em.emit(text, sf.rel, start_line)
     if wrap:
         em.emit_fixed('}', 'unit', unit_line)
@@ -428,7 +464,16 @@ def render_fn(sf, item, d, drops, em, canary, take_opts=()):
                 m = None
                 for mm in re.finditer(r'\bin\b', src[kw_i:b_open]):
                     pos = kw_i + mm.start()
-                    if mask[pos] and R.find_at_depth0(src, mask, kw_i + 3, pos + 1, 'i', track='([{') == pos:
+                    if not mask[pos]:
+                        continue
+                    depth = 0
+                    for q in range(kw_i + 3, pos):
+                        if mask[q]:
+                            if src[q] in '([{':
+                                depth += 1
+                            elif src[q] in ')]}':
+                                depth -= 1
+                    if depth == 0:
                         m = mm
                         break
                 if m is None:
@@ -555,6 +600,12 @@ def generate(unit_dir, out_path, canary=False):
             sf = SourceFile.get(node[1])
             if re.sub(r'\s+', ' ', node[2]) not in re.sub(r'\s+', ' ', sf.src):
                 raise LostAnchor('expected text %r no longer present in %s' % (node[2], node[1]))
+        elif node[0] == 'take_types':
+            _, file, exc, line, topts = node
+            sf = SourceFile.get(file)
+            for it in sf.items:
+                if it.kind in ('struct', 'enum') and it.name not in exc:
+                    emit_take(em, sf, it, topts, drops, line)
         elif node[0] == 'take':
             _, file, path, opts, line = node
             sf = SourceFile.get(file)
